@@ -5,7 +5,7 @@ open EV EV.Driver EV.Codec
 def txidOp : Handler
   | cfg, [h] => withHex h fun bs =>
     match Tx.deserialize cfg.prims bs with
-    | .ok t => s!"ok {Hex.enc (Sha256.sha256d t.encStripped)} {Hex.enc (Sha256.sha256d t.enc)}"
+    | .ok t => s!"ok {Hex.enc (t.txid hashes)} {Hex.enc (t.wtxid hashes)}"
     | .err _ => "err"
     | .panic _ => "panic"
   | _, _ => "bad-op"
